@@ -872,7 +872,7 @@ func merge{{.PointerMethod}}(dst, src pointer, _ *coderFieldInfo, _ mergeOptions
 
 func merge{{.PointerMethod}}NoZero(dst, src pointer, _ *coderFieldInfo, _ mergeOptions) {
 	v := *src.{{.PointerMethod}}()
-	if v != {{.Zero}} {
+	if v != {{.Zero}}{{if or (eq . "float32") (eq . "float64")}} || math.Signbit(float64(v)){{end}} {
 		*dst.{{.PointerMethod}}() = v
 	}
 }
